@@ -2,7 +2,7 @@
 and on the Lean model driver, and return aligned observables.  Results are cached under
 build/cache keyed by the content of /repo's sources, of the machinery, the tier and the seed, so the
 twenty property checks share one run per tree state."""
-import concurrent.futures, json, os, random, subprocess, sys, time
+import concurrent.futures, json, os, random, re, subprocess, sys, time
 from . import common
 from .common import BUILD, CACHE, LEAN, sh
 import corpus, rawgen
@@ -43,8 +43,9 @@ def run_bins(prefix, where, cases, profile="debug", target=None):
         res = []
         start = 0
         timeouts = {}
-        # a watchdog exit (code 3) ends the process: restart after the timed-out case; after 3 cases of one
-        # (grammar, rule) that do not return, the remaining cases of that rule are not run (marked v=timeout-skipped)
+        # a watchdog exit (code 3, after 6 s without an answer: harness/common/src/lib.rs) ends the process: the case is
+        # retried once in a fresh process, then the run restarts after it; after 2 cases of one (grammar, rule) that do
+        # not return (twice each), the remaining cases of that rule are not run (marked v=timeout-skipped)
         while start < len(lines):
             p = subprocess.run([os.path.join(target, profile, f"{prefix}{b}")], input="\n".join(lines[start:]) + "\n",
                                capture_output=True, text=True)
@@ -65,6 +66,14 @@ def run_bins(prefix, where, cases, profile="debug", target=None):
                         continue
                 start += len(got)
                 if got[-1].endswith("v=timeout"):
+                    # one automatic retry of the timed-out case in a fresh process: a stalled machine must not
+                    # turn into a verdict (the case is a timeout only if it does not return twice)
+                    p2 = subprocess.run([os.path.join(target, profile, f"{prefix}{b}")], input=lines[start - 1] + "\n",
+                                        capture_output=True, text=True)
+                    got2 = p2.stdout.splitlines()
+                    if got2 and not got2[-1].endswith("v=timeout") and got2[-1].split(" ", 1)[0] == lines[start - 1].split(" ", 1)[0]:
+                        res[-1] = got2[-1]
+                        continue
                     f = lines[start - 1].split(" ")
                     key = (f[1], f[2])
                     timeouts[key] = timeouts.get(key, 0) + 1
@@ -95,14 +104,14 @@ def uni_table_for(sexp_path):
     return corpus.ensure_uni_table(sexp_path[:-5] + ".uni" if sexp_path.endswith(".sexp") else sexp_path + ".uni")
 
 
-def run_driver(sexp_path, cases, nproc=8, uni=None):
+def run_driver(sexp_path, cases, nproc=8, uni=None, line_prefix=""):
     chunks = [cases[i::nproc] for i in range(nproc)]
     uni = uni or uni_table_for(sexp_path)
 
     def run(chunk):
         if not chunk:
             return []
-        p = subprocess.run([DRIVER, sexp_path, uni], input="\n".join(case_line(c) for c in chunk) + "\n",
+        p = subprocess.run([DRIVER, sexp_path, uni], input="\n".join(line_prefix + case_line(c) for c in chunk) + "\n",
                            capture_output=True, text=True)
         return p.stdout.splitlines()
     out = [None] * len(cases)
@@ -128,11 +137,80 @@ class SuiteResult:
 
 
 def _store(d, meta, cases, impl, model):
+    """Every file is written completely and then renamed; meta.json (the marker of a finished suite) last."""
     os.makedirs(d, exist_ok=True)
-    json.dump(cases, open(os.path.join(d, "cases.json"), "w"), ensure_ascii=False)
-    open(os.path.join(d, "impl.txt"), "w").write("\n".join(impl) + "\n")
-    open(os.path.join(d, "model.txt"), "w").write("\n".join(model) + "\n")
-    json.dump(meta, open(os.path.join(d, "meta.json"), "w"), ensure_ascii=False)
+
+    def put(name, write):
+        tmp = os.path.join(d, f".{name}.{os.getpid()}.tmp")
+        with open(tmp, "w") as f:
+            write(f)
+        os.replace(tmp, os.path.join(d, name))
+    put("cases.json", lambda f: json.dump(cases, f, ensure_ascii=False))
+    put("impl.txt", lambda f: f.write("\n".join(impl) + "\n"))
+    put("model.txt", lambda f: f.write("\n".join(model) + "\n"))
+    put("meta.json", lambda f: json.dump(meta, f, ensure_ascii=False))
+
+
+class _flock:
+    """Inter-process lock (many checks run at the same time): `with _flock(path): …`"""
+
+    held = {}    # path -> [file, depth]: re-entrant within the process (suite_raw_release runs suite_raw inside)
+
+    def __init__(self, path):
+        self.path = os.path.abspath(path)
+
+    def __enter__(self):
+        import fcntl
+        h = _flock.held.get(self.path)
+        if h:
+            h[1] += 1
+            return self
+        os.makedirs(os.path.dirname(self.path), exist_ok=True)
+        f = open(self.path, "w")
+        fcntl.flock(f, fcntl.LOCK_EX)
+        _flock.held[self.path] = [f, 1]
+        return self
+
+    def __exit__(self, *a):
+        import fcntl
+        h = _flock.held[self.path]
+        h[1] -= 1
+        if h[1] == 0:
+            fcntl.flock(h[0], fcntl.LOCK_UN)
+            h[0].close()
+            del _flock.held[self.path]
+
+
+def workspace_lock(name):
+    """`with suites.workspace_lock("ws_acc"):` — inter-process lock (fcntl.flock on build/locks/<name>.lock, re-entrant within
+    a process) for everything that emits into a cargo workspace directory, builds it and runs its binaries: workspaces are
+    shared across seeds and all binaries live in one target directory, so one run at a time per workspace.  Take it for the
+    whole emit + build + run, re-check the cache after acquiring it, write the cache marker (meta.json) last and atomically."""
+    return _flock(os.path.join(BUILD, "locks", re.sub(r"[^A-Za-z0-9_.-]+", "_", name) + ".lock"))
+
+
+def _serialized(name, bins):
+    """Decorator of a suite function `f(tier, seed)`: one process computes a given cache entry, the others wait for it;
+    the binaries `<bins><n>` of the shared target directory belong to one run at a time."""
+    def deco(fn):
+        def run(tier, seed):
+            d = _cache_dir(name, tier, seed)
+            hit = _cached(d)
+            if hit:
+                return hit
+            with _flock(d + ".lock"):
+                hit = _cached(d)
+                if hit:
+                    return hit
+                with workspace_lock(f"bins_{bins}"):
+                    return fn(tier, seed)
+        run.__name__, run.__doc__ = fn.__name__, fn.__doc__
+        return run
+    return deco
+
+
+def _cached(d):
+    return SuiteResult(d) if os.path.exists(os.path.join(d, "meta.json")) else None
 
 
 def _cache_dir(name, tier, seed):
@@ -142,80 +220,191 @@ def _cache_dir(name, tier, seed):
 def _gc_cache(keep):
     if not os.path.isdir(CACHE):
         return
-    ds = sorted((os.path.join(CACHE, d) for d in os.listdir(CACHE)), key=os.path.getmtime)
-    for d in ds[:-keep]:
-        subprocess.call(["rm", "-rf", d])
+    # one group = a suite directory and its companion files (<dir>.sexp, <dir>.uni, …); the `keep` newest groups stay
+    groups = {}
+    for d in os.listdir(CACHE):
+        try:
+            groups.setdefault(d.split(".", 1)[0], []).append((os.path.getmtime(os.path.join(CACHE, d)), d))
+        except OSError:
+            pass
+    order = sorted(groups, key=lambda k: max(t for t, _ in groups[k]))
+    for k in order[:-keep]:
+        for _, d in groups[k]:
+            subprocess.call(["rm", "-rf", os.path.join(CACHE, d)])
 
 
 # ---------------------------------------------------------------------------------------------
 # suite "run": generator + runtime (T-run) with pest as by-stander oracle
 
+ENTRIES = ("parse_partial", "check_partial", "parse", "check")
+
+
+def sub_cases(gid, rule, s, out):
+    """Every entry point on every Position(s, a) (a > 0) and Span(s, a, b) (a <= b, not the whole string) of `s`."""
+    bs = corpus.boundaries(s)
+    for a in bs:
+        if a > 0:
+            for entry in ENTRIES:
+                out.append((gid, rule, entry, "pos", a, 0, s))
+        for b in bs:
+            if b >= a and not (a == 0 and b == bs[-1]):
+                for entry in ENTRIES:
+                    out.append((gid, rule, entry, "span", a, b, s))
+
+
 def run_cases_for(g, rnd, maxlen, nrand, span_maxlen):
+    """Cases of one grammar.  Optional keys of `g`: `inputs` (targeted whole-string inputs; `sub_targeted` = False: no sub-input forms
+    of the short ones among them), `inputs_by_prefix` (targeted inputs of the rules whose name has a prefix), `exh` (cap of
+    the exhaustive length), `alpha` (the alphabet of the exhaustive part), `subinputs` (whole strings of which EVERY Position / Span cut
+    is run through every entry point, and every slice as a fresh `&str` input: C08's reference)."""
     cases = []
-    ins = corpus.inputs_for(g, rnd, maxlen, nrand)
+    ins = corpus.inputs_for(g, rnd, min(maxlen, g.get("exh", maxlen)), nrand)
     targeted = set(g.get("inputs", []))
+    subs = list(g.get("subinputs", []))
+    seen = set(ins)
+    for w in subs:
+        bs = corpus.boundaries(w)
+        wb = w.encode("utf-8")
+        for i, a in enumerate(bs):
+            for b in bs[i:]:
+                sl = wb[a:b].decode("utf-8")
+                if sl not in seen:
+                    seen.add(sl)
+                    ins.append(sl)
+    subset = set(subs)
     for (rule, kind) in g["rules"]:
         for s in ins:
             # targeted sentences of the big systematic families: the partial entries only (volume)
-            entries = ("parse_partial", "check_partial") if (s in targeted and len(g["rules"]) > 40) else ("parse_partial", "check_partial", "parse", "check")
+            entries = ("parse_partial", "check_partial") if (s in targeted and len(g["rules"]) > 40) else ENTRIES
             for entry in entries:
                 cases.append((g["gid"], rule, entry, "str", 0, 0, s))
-            if rule in ("WHITESPACE", "COMMENT") and len(s) > span_maxlen:
+            if rule in ("WHITESPACE", "COMMENT") and len(s) > span_maxlen and s not in subset:
                 # C04's independent trailing-skip computation needs the skip rules at every offset
                 for a in corpus.boundaries(s)[1:]:
                     cases.append((g["gid"], rule, "parse_partial", "pos", a, 0, s))
-            if len(s) <= span_maxlen:
-                bs = corpus.boundaries(s)
-                for a in bs:
-                    if a > 0:
-                        cases.append((g["gid"], rule, "parse_partial", "pos", a, 0, s))
-                        cases.append((g["gid"], rule, "parse", "pos", a, 0, s))
-                    for b in bs:
-                        if b >= a and not (a == 0 and b == bs[-1]):
-                            cases.append((g["gid"], rule, "parse_partial", "span", a, b, s))
-                            cases.append((g["gid"], rule, "parse", "span", a, b, s))
-                            cases.append((g["gid"], rule, "check_partial", "span", a, b, s))
+            if (len(s) <= span_maxlen and (g.get("sub_targeted", True) or s not in targeted)) or s in subset:
+                sub_cases(g["gid"], rule, s, cases)
+        # targeted sentences meant for the rules whose name starts with a prefix
+        for prefix, lst in g.get("inputs_by_prefix", []):
+            if rule.startswith(prefix):
+                for s in lst:
+                    if s not in seen:
+                        for entry in (("parse_partial", "check_partial") if len(g["rules"]) > 40 else ENTRIES):
+                            cases.append((g["gid"], rule, entry, "str", 0, 0, s))
     return cases
+
+
+def attribute_build_errors(err, ws, prefix):
+    """{gid: error text} for the rustc errors of a corpus workspace that point into the module of one grammar (each
+    grammar is one `pub mod t_<gid>` (+ `p_<gid>`) followed by its case functions in `<prefix><n>/src/main.rs`)."""
+    out = {}
+    linemaps = {}
+    for blk in re.split(r"\n(?=error)", "\n" + err):
+        blk = blk.lstrip("\n")
+        if not blk.startswith("error"):
+            continue
+        m = re.search(r"--> (?:\S*/)?(%s\d+)/src/main\.rs:(\d+)" % re.escape(prefix), blk)
+        if not m:
+            continue
+        b, line = m.group(1), int(m.group(2))
+        if b not in linemaps:
+            lm = []
+            try:
+                for no, l in enumerate(open(os.path.join(ws, b, "src", "main.rs")), 1):
+                    mm = re.match(r"pub mod [tp]_(\w+) \{", l)
+                    if mm:
+                        lm.append((no, mm.group(1)))
+            except OSError:
+                pass
+            linemaps[b] = lm
+        gid = None
+        for no, gname in linemaps[b]:
+            if no <= line:
+                gid = gname
+        if gid:
+            out.setdefault(gid, blk[:1500])
+    return out
+
+
+def build_corpus(ok, ws, prefix, release=False, with_pest=True, attrs=""):
+    """Emits and builds the workspace of the grammars `ok` (cargo --keep-going).  A grammar whose derive output does not
+    compile is taken out and reported (it must not hide the other grammars): returns (where, built grammars, failures)."""
+    failures = []
+    for _ in range(4):
+        where = corpus.emit_workspace(ok, ws, NBINS, attrs=attrs, with_pest=with_pest, prefix=prefix)
+        rc, err = corpus.build_workspace(ws, release=release, keep_going=True)
+        if rc == 0:
+            return where, ok, failures
+        bad = attribute_build_errors(err, ws, prefix)
+        byid = {g["gid"]: g for g in ok}
+        bad = {gid: e for gid, e in bad.items() if gid in byid}
+        if not bad:
+            raise RuntimeError("corpus workspace does not build:\n" + err[-4000:])
+        failures += [{"gid": gid, "text": byid[gid]["text"], "error": e, "attrs": attrs} for gid, e in sorted(bad.items())]
+        ok = [g for g in ok if g["gid"] not in bad]
+    raise RuntimeError("corpus workspace does not build after removing the grammars that fail:\n" + err[-4000:])
+
+
+def _grammar_meta(ok):
+    return {g["gid"]: {"text": g["text"], "rules": g["rules"], "uses_stack": g["uses_stack"], "sexp": g["sexp"]} for g in ok}
+
+
+def run_corpus_suite(d, name, tier, seed, gs, ws, prefix, cases_of, release=False, with_pest=True, attrs="", line_prefix="", t0=None):
+    """validate -> build -> cases -> implementation + model; stores the result under `d`.  Two locks: one per result (a
+    second process that wants the same suite waits and then reads it), one per binary prefix (the workspace sources and the
+    binaries `<prefix><n>` in the shared target directory belong to one run at a time, from emission to the last case)."""
+    with _flock(d + ".lock"):
+        hit = _cached(d)
+        if hit:
+            return hit
+        t0 = t0 or time.time()
+        ensure_driver()
+        ok, bad = corpus.validate(gs)
+        with workspace_lock(f"bins_{prefix}"):
+            where, ok, failures = build_corpus(ok, ws, prefix, release=release, with_pest=with_pest, attrs=attrs)
+            cases = []
+            for g in ok:
+                cases += cases_of(g)
+            impl = run_bins(prefix, where, cases, profile="release" if release else "debug")
+        os.makedirs(os.path.dirname(d), exist_ok=True)
+        sexp = d + ".sexp"
+        open(sexp, "w").write("\n".join(g["sexp"] for g in ok) + "\n")
+        model = run_driver(sexp, cases, line_prefix=line_prefix)
+        return _finish_corpus_suite(d, name, tier, seed, ok, bad, failures, attrs, cases, impl, model, t0)
+
+
+def _finish_corpus_suite(d, name, tier, seed, ok, bad, failures, attrs, cases, impl, model, t0):
+    meta = {"suite": name, "tier": tier, "seed": seed, "wall_s": time.time() - t0, "grammars": _grammar_meta(ok),
+            "rejected": [{"gid": g["gid"], "why": g["reject"][:200]} for g in bad], "build_failures": failures,
+            "attrs": attrs}
+    _store(d, meta, cases, impl, model)
+    return SuiteResult(d)
+
+
+def corpus_grammars(seed, nseeded):
+    gs = corpus.systematic_grammars() + corpus.targeted_grammars() + corpus.random_grammars(seed, nseeded)
+    reg = os.path.join(common.VERIF, "harness", "regressions", "grammars.json")
+    if os.path.exists(reg):
+        gs = json.load(open(reg)) + gs
+    return gs
 
 
 def suite_run(tier, seed):
     d = _cache_dir("run", tier, seed)
     if os.path.exists(os.path.join(d, "meta.json")):
         return SuiteResult(d)
-    t0 = time.time()
-    ensure_driver()
-    nseeded = 16 if tier == "quick" else 160
-    gs = corpus.systematic_grammars() + corpus.random_grammars(seed, nseeded)
-    reg = os.path.join(common.VERIF, "harness", "regressions", "grammars.json")
-    if os.path.exists(reg):
-        gs = json.load(open(reg)) + gs
-    ok, bad = corpus.validate(gs)
-    ws = os.path.join(BUILD, f"ws_run_{tier}")
-    # binary names must be unique per workspace: all workspaces share one CARGO_TARGET_DIR
-    prefix = "bq" if tier == "quick" else "bt"
-    where = corpus.emit_workspace(ok, ws, NBINS, prefix=prefix)
-    rc, err = corpus.build_workspace(ws)
-    if rc != 0:
-        raise RuntimeError("corpus workspace does not build:\n" + err[-4000:])
-    sexp = os.path.join(d + ".sexp")
-    os.makedirs(CACHE, exist_ok=True)
-    open(sexp, "w").write("\n".join(g["sexp"] for g in ok) + "\n")
+    gs = corpus_grammars(seed, 16 if tier == "quick" else 160)
     rnd = random.Random(seed)
-    cases = []
-    for g in ok:
+
+    def cases_of(g):
         big = len(g["rules"]) > 40
         if tier == "quick":
-            cases += run_cases_for(g, rnd, 3 if big else 4, 4 if big else 12, 0 if big else 3)
-        else:
-            cases += run_cases_for(g, rnd, 4 if big else 5, 8 if big else 40, 2 if big else 3)
-    impl = run_bins(prefix, where, cases)
-    model = run_driver(sexp, cases)
-    meta = {"suite": "run", "tier": tier, "seed": seed, "wall_s": time.time() - t0,
-            "grammars": {g["gid"]: {"text": g["text"], "rules": g["rules"], "uses_stack": g["uses_stack"], "sexp": g["sexp"]} for g in ok},
-            "rejected": [{"gid": g["gid"], "why": g["reject"][:200]} for g in bad]}
-    _store(d, meta, cases, impl, model)
+            return run_cases_for(g, rnd, 3 if big else 4, 4 if big else 12, 0 if big else 3)
+        return run_cases_for(g, rnd, 4 if big else 5, 8 if big else 40, 2 if big else 3)
+    # binary names must be unique per workspace: all workspaces share one CARGO_TARGET_DIR
+    res = run_corpus_suite(d, "run", tier, seed, gs, os.path.join(BUILD, f"ws_run_{tier}"), "bq" if tier == "quick" else "bt", cases_of)
     _gc_cache(12)
-    return SuiteResult(d)
+    return res
 
 
 def suite_run_release(tier, seed):
@@ -223,33 +412,46 @@ def suite_run_release(tier, seed):
     d = _cache_dir("runrel", tier, seed)
     if os.path.exists(os.path.join(d, "meta.json")):
         return SuiteResult(d)
-    t0 = time.time()
-    ensure_driver()
-    gs = [g for g in corpus.systematic_grammars() if not g["gid"].startswith("s_kinds")]
+    gs = [g for g in corpus.systematic_grammars() + corpus.targeted_grammars() if not g["gid"].startswith("s_kinds")]
     gs += corpus.random_grammars(seed + 1, 8 if tier == "quick" else 64, modes=("multibyte", "multibyte", "stacky", "plain"))
-    ok, bad = corpus.validate(gs)
-    ws = os.path.join(BUILD, f"ws_runrel_{tier}")
-    prefix = "rlq" if tier == "quick" else "rlt"
-    where = corpus.emit_workspace(ok, ws, NBINS, with_pest=False, prefix=prefix)
-    rc, err = corpus.build_workspace(ws, release=True)
-    if rc != 0:
-        raise RuntimeError("release corpus workspace does not build:\n" + err[-4000:])
-    os.makedirs(CACHE, exist_ok=True)
-    sexp = d + ".sexp"
-    open(sexp, "w").write("\n".join(g["sexp"] for g in ok) + "\n")
     rnd = random.Random(seed + 1)
-    cases = []
-    for g in ok:
+
+    def cases_of(g):
         g = dict(g)
-        g["alphabet"] = list(g["alphabet"])[:3] + [c for c in ("é", "中", "\U0001F600") if c not in g["alphabet"]][:2]
-        cases += run_cases_for(g, rnd, 3 if tier == "quick" else 4, 20, 3)
-    impl = run_bins(prefix, where, cases, profile="release")
-    model = run_driver(sexp, cases)
-    meta = {"suite": "runrel", "tier": tier, "seed": seed, "wall_s": time.time() - t0,
-            "grammars": {g["gid"]: {"text": g["text"], "rules": g["rules"], "uses_stack": g["uses_stack"], "sexp": g["sexp"]} for g in ok},
-            "rejected": [{"gid": g["gid"], "why": g["reject"][:200]} for g in bad]}
-    _store(d, meta, cases, impl, model)
-    return SuiteResult(d)
+        if "alpha" not in g:
+            g["alphabet"] = list(g["alphabet"])[:3] + [c for c in ("é", "中", "\U0001F600") if c not in g["alphabet"]][:2]
+        return run_cases_for(g, rnd, 3 if tier == "quick" else 4, 20, 3)
+    return run_corpus_suite(d, "runrel", tier, seed, gs, os.path.join(BUILD, f"ws_runrel_{tier}"), "rlq" if tier == "quick" else "rlt",
+                            cases_of, release=True, with_pest=False)
+
+
+def suite_run_noopt(tier, seed):
+    """The counted-repetition / stack part of the corpus derived with `#[pest_optimizer = false]`: the only way the
+    generator emits `RepExact` / `RepMin` / `RepMax` / `RepMinMax` (pest's optimizer unrolls `e{n,m}` otherwise).
+    Model side: the driver's `opts 00` entry (Model.GenOpts.genWith on the raw AST; `spec=` is the Spec of the raw AST).
+    pest_derive's parser is not run here: it always walks the OPTIMIZED AST, and pest_meta's optimizer is not semantics
+    preserving where a skip rule is defined (known findings F-OPT-1/3/4, property C20)."""
+    d = _cache_dir("runraw", tier, seed)
+    if os.path.exists(os.path.join(d, "meta.json")):
+        return SuiteResult(d)
+    gs = [g for g in corpus.systematic_grammars() + corpus.targeted_grammars() if g.get("noopt") or g["gid"] == "s_stack"]
+    rnd = random.Random(seed + 2)
+
+    def cases_of(g):
+        return run_cases_for(g, rnd, 4 if tier == "quick" else 5, 12 if tier == "quick" else 40, 3)
+    return run_corpus_suite(d, "runraw", tier, seed, gs, os.path.join(BUILD, f"ws_runraw_{tier}"), "nq" if tier == "quick" else "nt",
+                            cases_of, with_pest=False, attrs="#[pest_optimizer = false]", line_prefix="opts 00 ")
+
+
+def suite_mini(name, grammars, cases_of=None, release=False, attrs="", line_prefix="", prefix="rp"):
+    """A one-off suite outside the cache (replay of a recorded case, corpus experiments): builds `grammars` in their own
+    workspace build/ws_mini_<name> with binaries <prefix>0.., runs the cases, returns the SuiteResult."""
+    d = os.path.join(BUILD, "mini", f"{name}")
+    subprocess.call(["rm", "-rf", d, d + ".sexp", d + ".uni"])
+    rnd = random.Random(1)
+    cases_of = cases_of or (lambda g: run_cases_for(g, rnd, 4, 12, 3))
+    return run_corpus_suite(d, "mini", "quick", 0, grammars, os.path.join(BUILD, f"ws_mini_{name}"), prefix, cases_of,
+                            release=release, with_pest=not release, attrs=attrs, line_prefix=line_prefix)
 
 
 # ---------------------------------------------------------------------------------------------
@@ -264,6 +466,79 @@ def strings(alpha, n):
     return res
 
 
+def raw_targeted_inputs(gid, rnd):
+    """Inputs long enough to COMPLETE the stack grammars of rawgen (quick-tier exhaustive inputs have at most 4 characters:
+    PEEK_ALL after three pushes, a slice of two entries at depth 3 or 4, a pushed span with an inner skip never succeed):
+    the pushes' texts followed by a part of the stack in either order, with and without blanks in between."""
+    vals = ["ab", "a", "b"]
+    out = []
+    if gid.startswith("slice_") and gid[6].isdigit() and int(gid[6]) >= 2:
+        depth = int(gid[6])
+        import itertools
+        combos = list(itertools.product(vals, repeat=depth))
+        rnd2 = random.Random(depth * 7919 + (1 if gid.endswith("n") else 0))
+        rnd2.shuffle(combos)
+        for vs in combos[:12]:
+            i, j = sorted((rnd2.randint(0, depth), rnd2.randint(0, depth)))
+            for tail in ("".join(vs), "".join(reversed(vs)), "".join(vs[i:j]), "".join(vs[-2:]), "".join(vs[:2]), "".join(vs[1:-1])):
+                out.append("".join(vs) + tail)
+                if gid.endswith("n"):
+                    out.append(" ".join(vs) + " " + tail)
+    elif gid.startswith("stackops_"):
+        for vs in itertools_product(vals, 3):
+            out.append("".join(vs) + "".join(reversed(vs)))
+            out.append("".join(vs) + "".join(vs))
+            out.append(" ".join(vs) + " " + " ".join(reversed(vs)))
+        for vs in itertools_product(vals, 2):
+            for tail in (vs[1] + vs[0], vs[0] + vs[1], vs[1], vs[0] + vs[0]):
+                out.append(vs[0] + vs[1] + tail)
+                out.append(vs[0] + " " + vs[1] + " " + tail)
+        out += ["a ba b", "aba b", "abab", "a bab", "a b a b", "a  ba  b", "a ba  b", "ab ab", "a ba b ", "a ba ba b"]
+    res = []
+    for x in out:
+        if x not in res:
+            res.append(x)
+    return res
+
+
+def itertools_product(vals, n):
+    import itertools
+    return list(itertools.product(vals, repeat=n))
+
+
+def rep_inputs(tier):
+    """C19 (grammars `rep_*`): (exhaustive part, targeted part, description).  Quick: all strings up to length 5 over {a, b, blank};
+    thorough: up to length 6 over {a, b, blank} and up to length 8 over {a, blank}.  Targeted: k = 1..7 matchable iterations
+    (`a`; 1..5 for `ab`), with zero, one or two blanks between them and different tails, so that for EVERY bound of the corpus
+    (MAX <= 4) at least MAX + 1 iterations could match ("stops at MAX even if more could match"), plus inputs that complete
+    the stack forms (pushes followed by the pops / drops / peeks of the repetition)."""
+    if tier == "quick":
+        exh = strings("ab ", 5)
+        bound = {"{a,b,blank}": 5}
+    else:
+        exh = strings("ab ", 6)
+        have = set(exh)
+        exh += [x for x in strings("a ", 8) if x not in have]
+        bound = {"{a,b,blank}": 6, "{a,blank}": 8}
+    out = []
+    for u, kmax in (("a", 7), ("ab", 5)):
+        for k in range(1, kmax + 1):
+            for sep in ("", " ") + (("  ",) if k in (2, 5) else ()):
+                base = sep.join([u] * k)
+                for tail in ("", "b", " b"):
+                    out.append(base + tail)
+    out += ["ab  ba", "ab ba", "abba", "abbaa", "ab  b", "ab   ba", "ab  b a", "abb", "abbaaa", "ab ba a a", "abab ba", "ab ab",
+            "ba ab", "baab", "baabaa", "b a a a a a", "baaaaaa", "b aa aa aa", "ba a a a a a", "aaaaaaab", "a a a a a a a b"]
+    have = set(exh)
+    targeted = []
+    for x in out:
+        if x not in have:
+            have.add(x)
+            targeted.append(x)
+    return exh, targeted, bound
+
+
+@_serialized("raw", "r")
 def suite_raw(tier, seed):
     d = _cache_dir("raw", tier, seed)
     if os.path.exists(os.path.join(d, "meta.json")):
@@ -278,19 +553,33 @@ def suite_raw(tier, seed):
         raise RuntimeError("raw workspace does not build:\n" + err[-4000:])
     os.makedirs(CACHE, exist_ok=True)
     sexp = d + ".sexp"
-    open(sexp, "w").write("\n".join(rawgen.grammar_sexp(g) for g in gs) + "\n")
+    open(sexp, "w").write("\n".join(rawgen.grammar_sexp(g, nf_items=True) for g in gs) + "\n")
     n = 4 if tier == "quick" else 6
     ins = strings("ab ", n)
     rnd = random.Random(seed)
     ins += ["".join(rnd.choice("ab éB\n\r") for _ in range(rnd.randint(n + 1, n + 4))) for _ in range(60)]
     ins8 = ins + (["".join(rnd.choice("ab ") for _ in range(rnd.randint(7, 8))) for _ in range(200)] if tier != "quick" else [])
+    # C19: the `rep_*` grammars get their own exhaustive bound and targeted long inputs (rep_inputs); the random ones stay
+    rep_exh, rep_tgt, rep_bound = rep_inputs(tier)
+    have = set(rep_exh) | set(rep_tgt)
+    # (thorough: the 200 random strings of length 7-8 predate the exhaustive {a, blank} part; 60 random + 60 long ones are kept)
+    rnd_part = ins[len(strings("ab ", n)):]                      # the 60 random strings over "ab éB\n\r"
+    ins_rep = rep_exh + rep_tgt + [x for x in (rnd_part + ins8[len(ins):][:60] if tier != "quick" else rnd_part[-30:]) if x not in have]
     cases = []
     for g in gs:
-        use = ins8 if g["gid"].startswith("rep_") else ins
+        use = (ins_rep if g["gid"].startswith("rep_") else ins) + raw_targeted_inputs(g["gid"], rnd)
         for r in g["rules"]:
+            # a rule whose `$ignored` is a counted repetition: the full entries run it (trailing skip)
+            entries = ("parse_partial", "check_partial") + (("parse", "check") if r.get("ignored") else ())
             for s in use:
-                for entry in ("parse_partial", "check_partial"):
+                for entry in entries:
                     cases.append((g["gid"], r["name"], entry, "str", 0, 0, s))
+        # direct calls of NeverFailedTypedNode::parse_with / check_with (rawgen `nf` items)
+        for it in g.get("nf", []):
+            cases.append((g["gid"], it["name"], "nf_default", "str", 0, 0, ""))
+            for s in use:
+                for entry in ("nf_parse", "nf_check"):
+                    cases.append((g["gid"], it["name"], entry, "str", 0, 0, s))
     # sub-inputs for the raw combinators too (Span / Position forms of short inputs)
     short = [s for s in strings("ab ", 3)] + ["aé b", "éa", "ab\n"]
     for g in gs:
@@ -301,33 +590,143 @@ def suite_raw(tier, seed):
                     for a in bs:
                         if a > 0:
                             cases.append((g["gid"], r["name"], "parse_partial", "pos", a, 0, s))
+                            cases.append((g["gid"], r["name"], "check_partial", "pos", a, 0, s))
                         for b in bs:
                             if b >= a and not (a == 0 and b == bs[-1]):
                                 cases.append((g["gid"], r["name"], "parse_partial", "span", a, b, s))
                                 cases.append((g["gid"], r["name"], "check_partial", "span", a, b, s))
+    # C19: sub-input forms for the other `rep_*` grammars too (every fourth rule, staggered per grammar so that every
+    # (skip, MIN, MAX) occurs for some element kind) and for every direct-call item; a smaller set of strings
+    short2 = strings("a ", 3) + ["ab a", "a ab", "aé a", "aaaaa", "a a a"]
+    for gi, g in enumerate(gs):
+        if not g["gid"].startswith("rep_") or g["gid"] in ("rep_misc", "rep_s", "rep_null_o"):
+            continue
+        picked = [(r["name"], ("parse_partial", "check_partial") + (("parse", "check") if r.get("ignored") else ()))
+                  for ri, r in enumerate(g["rules"]) if (ri + gi) % 4 == 0]
+        picked += [(it["name"], ("nf_parse", "nf_check")) for it in g.get("nf", [])]
+        for name, entries in picked:
+            for s in short2:
+                bs = corpus.boundaries(s)
+                for a in bs:
+                    for entry in entries:
+                        if a > 0:
+                            cases.append((g["gid"], name, entry, "pos", a, 0, s))
+                        for b in bs:
+                            if b >= a and not (a == 0 and b == bs[-1]):
+                                cases.append((g["gid"], name, entry, "span", a, b, s))
     impl = run_bins("r", where, cases)
     model = run_driver(sexp, cases)
     meta = {"suite": "raw", "tier": tier, "seed": seed, "wall_s": time.time() - t0,
-            "grammars": {g["gid"]: {"rules": [r["name"] for r in g["rules"]]} for g in gs}}
+            "grammars": {g["gid"]: {"rules": [r["name"] for r in g["rules"]]} for g in gs},
+            "rep_inputs": {"exhaustive_max_length": rep_bound, "exhaustive_strings": len(rep_exh), "targeted": len(rep_tgt),
+                           "targeted_max_length": max(len(x) for x in rep_tgt), "random": len(ins_rep) - len(rep_exh) - len(rep_tgt)}}
     _store(d, meta, cases, impl, model)
     _gc_cache(12)
     return SuiteResult(d)
 
 
-def tie_diffs(result, keys, case_filter=None, limit=20):
-    """Cases where the implementation and the model differ on the given observables."""
+@_serialized("rawrel", "r")
+def suite_raw_release(tier, seed):
+    """T-raw-release: the raw suite (hand-instantiated combinators, hand-written skip types) built with the RELEASE
+    profile's `debug_assertions = false` / `overflow-checks = false` (so `Input::get` slices unchecked, `debug_assert!`s are
+    gone); opt-level 0 to keep the build of the 16 generic-heavy binaries under a minute.  Same workspace (binaries
+    `target/release/r<k>`), same cases and the same model answers as `suite_raw`.  Quick tier: a subset — sub-input (Span /
+    Position) cases: all of the non-`rep_` grammars and of rep_misc / rep_s / rep_null_o, every 6th of the others; inputs with
+    a multi-byte character, CR or LF: all of the non-`rep_` grammars, every 3rd of the `rep_` ones; every 13th of the rest."""
+    d = _cache_dir("rawrel", tier, seed)
+    if os.path.exists(os.path.join(d, "meta.json")):
+        return SuiteResult(d)
+    base = suite_raw(tier, seed)
+    t0 = time.time()
+    gs = rawgen.all_raw()
+    ws = os.path.join(BUILD, "ws_raw")
+    where = rawgen.emit_raw_workspace(gs, ws, NBINS)
+    p = subprocess.run(["cargo", "build", "--offline", "-q", "--release"], cwd=ws, capture_output=True, text=True,
+                       env=dict(corpus.ENV, CARGO_PROFILE_RELEASE_OPT_LEVEL="0", CARGO_PROFILE_RELEASE_DEBUG_ASSERTIONS="false",
+                                CARGO_PROFILE_RELEASE_OVERFLOW_CHECKS="false"))
+    if p.returncode != 0:
+        raise RuntimeError("raw workspace does not build (release):\n" + p.stderr[-4000:])
+    full = ("rep_misc", "rep_s", "rep_null_o")
+
+    def kept(k, c):
+        if tier != "quick":
+            return True
+        rep = c[0].startswith("rep_") and c[0] not in full
+        if c[3] != "str":
+            return not rep or k % 6 == 0
+        if any(ord(ch) > 127 or ch in "\r\n" for ch in c[6]):
+            return not c[0].startswith("rep_") or k % 3 == 0
+        return k % 13 == 0
+    keep = [k for k, c in enumerate(base.cases) if kept(k, c)]
+    cases = [base.cases[k] for k in keep]
+    impl = run_bins("r", where, cases, profile="release")
+    model = [base.model[k] for k in keep]
+    meta = {"suite": "rawrel", "tier": tier, "seed": seed, "wall_s": time.time() - t0, "grammars": base.meta["grammars"],
+            "subset_of_raw": {"raw_cases": len(base.cases), "kept": len(cases)}}
+    _store(d, meta, cases, impl, model)
+    return SuiteResult(d)
+
+
+def tie_stats(result, keys, case_filter=None, limit=20):
+    """Cases where the implementation and the model differ on the given observables.  Rows on which the model ran out of
+    fuel (`v=oof`) say nothing: they are counted separately (`oof_skipped`), never as agreeing."""
     n = 0
     diffs = []
     total = 0
+    oof = 0
     for c, io, mo in result.rows():
         if case_filter and not case_filter(c):
             continue
         total += 1
-        bad = [k for k in keys if (k in mo or k in io) and io.get(k) != mo.get(k)]
         if mo.get("v") == "oof":
+            oof += 1
             continue
+        bad = [k for k in keys if (k in mo or k in io) and io.get(k) != mo.get(k)]
         if bad:
             n += 1
             if len(diffs) < limit:
                 diffs.append({"case": list(c), "keys": bad, "impl": {k: io.get(k) for k in bad}, "model": {k: mo.get(k) for k in bad}})
-    return total, n, diffs
+    return {"cases": total, "disagree": n, "oof_skipped": oof, "agree": total - n - oof, "first": diffs}
+
+
+def tie_diffs(result, keys, case_filter=None, limit=20):
+    st = tie_stats(result, keys, case_filter, limit)
+    return st["cases"], st["disagree"], st["first"]
+
+
+def l0_tie(result, profile, case_filter=None, keys=("v", "end", "stk", "trk", "tok", "msg", "lc"), limit=20, tag="all"):
+    """Tie of the BYTE-level interpreter (Model/RunL0.lean, driver command `l0 <p> …`; p = 1: debug profile, checked
+    slicing; p = 0: release profile, unchecked) to the implementation rows of `result` (which must come from binaries of the
+    same profile): on the selected cases the `l0` line must carry the observables the implementation printed, and may be
+    neither `panic` nor `ub`.  The driver lines are cached next to the suite rows (same content key)."""
+    idx = [k for k, c in enumerate(result.cases) if not case_filter or case_filter(c)]
+    path = os.path.join(result.dir, f"l0_{profile}_{re.sub(r'[^A-Za-z0-9]+', '_', tag)}.txt")
+    sel = json.dumps([len(idx), sum(idx) % 1000003])
+    lines = None
+    if os.path.exists(path):
+        got = open(path).read().split("\n")
+        if got and got[0] == sel and len(got) >= len(idx) + 1 and not any(l == "v=missing" for l in got[1:len(idx) + 1]):
+            lines = got[1:len(idx) + 1]
+    if lines is None:
+        ensure_driver()
+        sexp = result.dir + ".sexp"
+        lines = run_driver(sexp, [result.cases[k] for k in idx], nproc=16, line_prefix=f"l0 {profile} ")
+        tmp = path + f".{os.getpid()}.tmp"
+        open(tmp, "w").write(sel + "\n" + "\n".join(lines) + "\n")
+        os.replace(tmp, path)
+    st = {"cases": len(idx), "disagree": 0, "oof_skipped": 0, "agree": 0, "panic_or_ub": 0, "first": [], "observables": list(keys)}
+    for k, line in zip(idx, lines):
+        io, lo = parse_obs(result.impl[k]), parse_obs(line)
+        if lo.get("v") == "oof":
+            st["oof_skipped"] += 1
+            continue
+        bad = [x for x in keys if (x in lo or x in io) and io.get(x) != lo.get(x)]
+        if lo.get("v") in ("panic", "ub"):
+            st["panic_or_ub"] += 1
+        if bad:
+            st["disagree"] += 1
+            if len(st["first"]) < limit:
+                st["first"].append({"case": list(result.cases[k]), "keys": bad, "impl": {x: io.get(x) for x in bad}, "l0": {x: lo.get(x) for x in bad}})
+        else:
+            st["agree"] += 1
+    return st
